@@ -71,7 +71,7 @@ static void crash_handler(int sig, siginfo_t* si, void* uc) {
   (void)uc;
   static volatile int entered = 0;
   if (__atomic_exchange_n(&entered, 1, __ATOMIC_ACQ_REL)) { _exit(12); }
-  char buf[1400];
+  char buf[2400];
   uintptr_t a = (uintptr_t)(si ? si->si_addr : 0);
   int in_touch = (vf_in_harness && a >= vf_touch_lo && a < vf_touch_hi);
   char bt[600]; bt[0] = 0;
@@ -88,9 +88,12 @@ static void crash_handler(int sig, siginfo_t* si, void* uc) {
     if (k > 0) { n += snprintf(buf + n, sizeof(buf) - (size_t)n, "%s\"%.*s\"", first ? "" : ",", (int)k, s); first = 0; }
     s += k; if (*s == ',') s++;
   }
+  /* the allocator's last diagnostic messages (assertion text etc.), made JSON safe */
+  char msgs[500]; size_t mlen = strlen(vf_last_msgs); const char* ms = vf_last_msgs + (mlen > sizeof(msgs) - 1 ? mlen - (sizeof(msgs) - 1) : 0);
+  size_t mi = 0; for (; ms[mi] && mi < sizeof(msgs) - 1; mi++) { char ch = ms[mi]; msgs[mi] = (ch == '"' || ch == '\\') ? '\'' : ((unsigned char)ch < 0x20 || (unsigned char)ch >= 0x7f) ? ' ' : ch; } msgs[mi] = 0;
   n += snprintf(buf + n, sizeof(buf) - (size_t)n,
-     "],\"detail\":\"signal %d addr 0x%lx in_harness=%d touch=[0x%lx,0x%lx) bt=%s\",\"op\":%llu,\"what\":\"%s\"},\"crash\":1}\n",
-     sig, (unsigned long)a, (int)vf_in_harness, (unsigned long)vf_touch_lo, (unsigned long)vf_touch_hi, bt,
+     "],\"detail\":\"signal %d addr 0x%lx in_harness=%d touch=[0x%lx,0x%lx) bt=%s msgs=%s\",\"op\":%llu,\"what\":\"%s\"},\"crash\":1}\n",
+     sig, (unsigned long)a, (int)vf_in_harness, (unsigned long)vf_touch_lo, (unsigned long)vf_touch_hi, bt, msgs,
      (unsigned long long)vf_cur_op, vf_cur_what ? (const char*)vf_cur_what : "?");
   if (n > 0) { ssize_t w = write(1, buf, (size_t)(n < (int)sizeof(buf) ? n : (int)sizeof(buf) - 1)); (void)w; }
   _exit(11);
